@@ -226,6 +226,14 @@
 (declare-fun codeOf (Int) Int)
 (assert (forall ((f Int)) (! (=> (and (>= f 900000) (< f 1000000)) (= (codeOf f) f)) :pattern ((codeOf f)))))
 (declare-fun walkDir (Int) Int)
+; visitDir classifies the two choice functions handed to Store.visitNodes (0: ascendChoice, 1: descendChoice)
+(declare-fun visitDir (Int) Int)
+;@spec visitDir smt=visitDir args=Int res=Int
+; depth of key position k below the root of t (0 at the root)
+(declare-fun depthIn (Int Tree) Int)
+(assert (forall ((k Int) (l Tree) (i Int) (r Tree))
+  (! (= (depthIn k (Node l i r)) (ite (= k (ikey i)) 0 (ite (< k (ikey i)) (+ 1 (depthIn k l)) (+ 1 (depthIn k r))))) :pattern ((depthIn k (Node l i r))))))
+;@spec depthIn smt=depthIn args=Int,Tree res=Int
 ;@spec codeOf smt=codeOf args=Int res=Int
 ;@spec walkDir smt=walkDir args=Int res=Int
 ; LEMMA L1 (induction on t, DESIGN section 4): in a heap-ordered search tree no member outranks the root
